@@ -49,3 +49,71 @@ def describe(c):
             s += "(%d+%di)/s2^%d" % (x["re"], x["im"], x["s"])
         return s + ("+" if x["dg"] else "")
     return "q%d: %s" % (c["dom"], " ".join("%s@%d" % (g(l["g"]), l["off"]) for l in c["layers"]))
+
+
+# ---------------------------------------------------------------- ZX diagrams
+def zx_box(b):
+    from discopy.quantum import zx
+    k = b["k"]
+    if k == "Z":
+        return zx.Z(b["n"], b["m"], b["ph"] / 16)
+    if k == "X":
+        return zx.X(b["n"], b["m"], b["ph"] / 16)
+    if k == "H":
+        return zx.H
+    if k == "SWAP":
+        return zx.SWAP
+    if k == "scalar":
+        return zx.scalar(complex(b["re"], b["im"]) / (2 ** 0.5) ** b["s"])
+    raise ValueError(k)
+
+
+def zx_diagram(d):
+    from discopy.quantum import zx
+    out = zx.Id(d["dom"])
+    for layer in d["layers"]:
+        box, off = zx_box(layer["b"]), layer["off"]
+        out = out >> zx.Id(off) @ box @ zx.Id(len(out.cod) - off - len(box.dom))
+    return out
+
+
+class NotOnGrid(Exception):
+    pass
+
+
+def proj_zx_box(b):
+    import math
+    from fractions import Fraction
+    from discopy.quantum import zx
+    base = {"n": len(b.dom), "m": len(b.cod), "ph": 0, "re": 0, "im": 0, "s": 0}
+    if isinstance(b, (zx.Z, zx.X)) and not isinstance(b, zx.Y):
+        v = Fraction(float(b.phase)).limit_denominator(1 << 20) * 16
+        if v.denominator != 1:
+            raise NotOnGrid("spider phase %r" % (b.phase,))
+        return dict(base, k="Z" if isinstance(b, zx.Z) else "X", ph=int(v) % 16)
+    if isinstance(b, zx.Had):
+        return dict(base, k="H")
+    if isinstance(b, zx.Swap):
+        return dict(base, k="SWAP")
+    if isinstance(b, zx.Scalar):
+        z = complex(b.data)
+        for s in range(0, 12):
+            re, im = z.real * math.sqrt(2) ** s, z.imag * math.sqrt(2) ** s
+            if abs(re - round(re)) < 1e-9 and abs(im - round(im)) < 1e-9:
+                return dict(base, k="scalar", re=int(round(re)), im=int(round(im)), s=s)
+        raise NotOnGrid("scalar %r" % (z,))
+    raise NotOnGrid("box %r" % (b,))
+
+
+def proj_zx(d):
+    return {"dom": len(d.dom), "layers": [{"b": proj_zx_box(b), "off": int(o)} for b, o in zip(d.boxes, d.offsets)]}
+
+
+def describe_zx(d):
+    def b(x):
+        if x["k"] in ("Z", "X"):
+            return "%s(%d,%d,%d/16)" % (x["k"], x["n"], x["m"], x["ph"])
+        if x["k"] == "scalar":
+            return "scalar((%d+%di)/s2^%d)" % (x["re"], x["im"], x["s"])
+        return x["k"]
+    return "zx%d: %s" % (d["dom"], " ".join("%s@%d" % (b(l["b"]), l["off"]) for l in d["layers"]))
